@@ -87,6 +87,7 @@ where
     // A multibyte character may be split across buffers, so the text is validated when the field
     // is complete rather than buffer by buffer.
     let mut dst_buf = std::mem::take(dst).into_bytes();
+    let start = dst_buf.len();
 
     loop {
         let src = reader.fill_buf()?;
@@ -114,7 +115,8 @@ where
 
     let is_eol = matches!(r#match, Some(LINE_FEED));
 
-    if is_eol && dst.ends_with(CARRIAGE_RETURN) {
+    // `dst` also holds the previous fields, so only the field read here is inspected.
+    if is_eol && dst[start..].ends_with(CARRIAGE_RETURN) {
         dst.pop();
     }
 
